@@ -34,6 +34,53 @@ def converting_writer_types(F):
             (b.impl.get("trait") or "").endswith("ValueWriter") and conv_params(b)}
 
 
+def _judge_forward(ctx, F, b, pr, key, c, inv, FROM, TO):
+    # control dependence on unit == From::UNIT
+    from rules.c12 import controlling_switches, discr_def
+    okc = False
+    for i, t, yes, no in controlling_switches(b, c.bb):
+        rv = discr_def(b, i, t)
+        if rv and rv.get("k") == "call" and (rv["term"].get("callee") or {}).get("name") in ("ne", "eq"):
+            nm = rv["term"]["callee"]["name"]
+            ao = set()
+            for a in rv["term"]["args"]:
+                ao |= pr.operand(a)
+            unit_p = any(x[0] == "arg" and x[1] == 3 for x in ao)
+            from_unit = False
+            for a in rv["term"]["args"]:
+                l = op_local(a)
+                # promoted constant referring to <From as UnitTag>::UNIT
+                for x in pr.operand(a):
+                    if x[0] == "const":
+                        from_unit = True
+            # the promoted holds `From::UNIT`: check its body mentions generic From
+            proms = b.d.get("promoted") or []
+            mentions = any("UnitTag::UNIT" in str(p) and ("'%s'" % FROM) in str(p) for p in proms)
+            site_on_true = t["otherwise"] in yes
+            good = unit_p and mentions and ((nm == "ne" and not site_on_true) or (nm == "eq" and site_on_true))
+            okc = okc or good
+            if good:
+                ctx.check(all(any(x.bb in b.reachable(n_) for x in inv) and c.bb not in b.reachable(n_) for n_ in no), "R19.4", key + "#mismatch-is-invalid", loc(b, i),
+                          "a value that writes another unit than it promised is not reported as invalid")
+    ctx.check(okc, "R19.4", key + "#forwards-only-when-unit-matches", loc(b, c.bb), "the conversion is applied without checking that the value wrote the unit it promised (wrongly scaled numbers)")
+    # unit argument = To::UNIT
+    k = op_const(c.args[2]) or {}
+    ctx.check(k.get("uneval", "").endswith("UnitTag::UNIT") and k.get("uneval_args") == [TO], "R19.4", key + "#emits-target-unit", loc(b, c.bb), "the forwarded unit is not To::UNIT (%s)" % (k.get("uneval"), ))
+    # distribution mapped through Convert::convert
+    do = pr.operand(c.args[1])
+    maps = [x for x in do if x[0] == "call" and b.term(x[1])["callee"]["name"] == "map"]
+    okm = False
+    for x in maps:
+        mt = b.term(x[1])
+        fnarg = op_const(mt["args"][1]) if len(mt["args"]) > 1 else None
+        f = (fnarg or {}).get("fn", {})
+        okm = okm or (f.get("def", "").endswith("Convert::convert") and f.get("args", [])[:2] == [FROM, TO] and FROM != TO and any(y[0] == "arg" and y[1] == 2 for y in pr.operand(mt["args"][0])))
+    ctx.check(okm, "R19.4", key + "#observations-converted", loc(b, c.bb), "the distribution is not mapped through <From as Convert<To>>::convert")
+    for j, nm in ((4, "dimensions"), (5, "flags")):
+        o = pr.operand(c.args[j - 1])
+        ctx.check(any(x[0] == "arg" and x[1] == j for x in o) and not any(x[0] == "call" for x in o), "R19.4", key + "#%s-identity" % nm, loc(b, c.bb), "%s are not passed through unchanged" % nm)
+
+
 def run(ctx):
     F = ctx.facts("dbg")
     res = witness.run_witness()
@@ -50,54 +97,12 @@ def run(ctx):
         key = fnkey(b)
         fw = [c for c in b.calls() if c.is_trait_method("ValueWriter", "metric")]
         inv = [c for c in b.calls() if c.is_trait_method("ValueWriter", "invalid")]
-        ctx.check(len(fw) == 1 and len(inv) >= 1, "R19.4", key + "#forward-or-invalid", loc(b), "expected one forwarding call and an invalid() path (fw=%d inv=%d)" % (len(fw), len(inv)))
-        if len(fw) != 1:
+        ctx.check(len(fw) >= 1 and len(inv) >= 1, "R19.4", key + "#forward-or-invalid", loc(b), "expected a forwarding call and an invalid() path (fw=%d inv=%d)" % (len(fw), len(inv)))
+        if not fw:
             continue
-        c = fw[0]
-        # control dependence on unit == From::UNIT
-        from rules.c12 import controlling_switches, discr_def
-        okc = False
-        for i, t, yes, no in controlling_switches(b, c.bb):
-            rv = discr_def(b, i, t)
-            if rv and rv.get("k") == "call" and (rv["term"].get("callee") or {}).get("name") in ("ne", "eq"):
-                nm = rv["term"]["callee"]["name"]
-                ao = set()
-                for a in rv["term"]["args"]:
-                    ao |= pr.operand(a)
-                unit_p = any(x[0] == "arg" and x[1] == 3 for x in ao)
-                from_unit = False
-                for a in rv["term"]["args"]:
-                    l = op_local(a)
-                    # promoted constant referring to <From as UnitTag>::UNIT
-                    for x in pr.operand(a):
-                        if x[0] == "const":
-                            from_unit = True
-                # the promoted holds `From::UNIT`: check its body mentions generic From
-                proms = b.d.get("promoted") or []
-                mentions = any("UnitTag::UNIT" in str(p) and ("'%s'" % FROM) in str(p) for p in proms)
-                site_on_true = t["otherwise"] in yes
-                good = unit_p and mentions and ((nm == "ne" and not site_on_true) or (nm == "eq" and site_on_true))
-                okc = okc or good
-                if good:
-                    ctx.check(all(any(x.bb in b.reachable(n_) for x in inv) and c.bb not in b.reachable(n_) for n_ in no), "R19.4", key + "#mismatch-is-invalid", loc(b, i),
-                              "a value that writes another unit than it promised is not reported as invalid")
-        ctx.check(okc, "R19.4", key + "#forwards-only-when-unit-matches", loc(b, c.bb), "the conversion is applied without checking that the value wrote the unit it promised (wrongly scaled numbers)")
-        # unit argument = To::UNIT
-        k = op_const(c.args[2]) or {}
-        ctx.check(k.get("uneval", "").endswith("UnitTag::UNIT") and k.get("uneval_args") == [TO], "R19.4", key + "#emits-target-unit", loc(b, c.bb), "the forwarded unit is not To::UNIT (%s)" % (k.get("uneval"), ))
-        # distribution mapped through Convert::convert
-        do = pr.operand(c.args[1])
-        maps = [x for x in do if x[0] == "call" and b.term(x[1])["callee"]["name"] == "map"]
-        okm = False
-        for x in maps:
-            mt = b.term(x[1])
-            fnarg = op_const(mt["args"][1]) if len(mt["args"]) > 1 else None
-            f = (fnarg or {}).get("fn", {})
-            okm = okm or (f.get("def", "").endswith("Convert::convert") and f.get("args", [])[:2] == [FROM, TO] and FROM != TO and any(y[0] == "arg" and y[1] == 2 for y in pr.operand(mt["args"][0])))
-        ctx.check(okm, "R19.4", key + "#observations-converted", loc(b, c.bb), "the distribution is not mapped through <From as Convert<To>>::convert")
-        for j, nm in ((4, "dimensions"), (5, "flags")):
-            o = pr.operand(c.args[j - 1])
-            ctx.check(any(x[0] == "arg" and x[1] == j for x in o) and not any(x[0] == "call" for x in o), "R19.4", key + "#%s-identity" % nm, loc(b, c.bb), "%s are not passed through unchanged" % nm)
+        # every forwarding call is judged on its own (a second, unguarded one - a `fast path` - is as bad as an unguarded only one)
+        for c in fw:
+            _judge_forward(ctx, F, b, pr, key + ("" if c is fw[0] else "@forward%d" % fw.index(c)), c, inv, FROM, TO)
     conv_self = {(b.impl or {}).get("self_ty") for b in ws}
     ss = [b for b in F.all_bodies(CORE) if b.name == "string" and b.impl and (b.impl.get("trait") or "").endswith("ValueWriter") and b.impl.get("self_ty") in conv_self]
     ctx.floor("R19.4", "string method of the unit-converting writer", len(ss), 1)
